@@ -41,6 +41,7 @@ def jobs(tier):
         mk('C09', 'fw/chain2', S.forward_chain(2, topo='chain')),
         mk('C09', 'fw/child', fw_child(), witnesses=W),
         mk('C09', 'fw/late', S.forward_chain(2, topo='chain', late=True)),
+        mk('C09', 'fw/late_await', S.fw_late_await()),
     ]
     if tier == 'thorough':
         out += [
